@@ -688,8 +688,20 @@ pub fn record_gencases(n_models: usize, seed: u64, out: &mut dyn Write) {
             }
             _ => {}
         }
+        // every 7th case: bias 0 and no type n-grams, plus a long text of a character no entry contains - every score is
+        // exactly 0 (the threshold) over more than eight consecutive boundaries
+        let zero_case = id % 7 == 3;
+        if zero_case {
+            mm.bias = 0;
+            mm.tng.clear();
+        }
         let mj = mmodel_to_json(&mm);
         let mut ops = vec![];
+        if zero_case {
+            let t: String = std::iter::repeat('\u{2603}').take(rng.gen_range(10..=19)).collect();
+            ops.push(json!({"op": "up_raw", "s": str_to_cps(&t)}));
+            ops.push(json!({"op": "predict", "p": 0}));
+        }
         let lens = [rng.gen_range(1..=3usize), rng.gen_range(2..=12usize)];
         for k in 0..5 {
             let l = if k == 4 { rng.gen_range(1..=20) } else { lens[k % 2] };
